@@ -38,7 +38,8 @@ CHECKS = {
             "runtime monitoring: shard-tag / directory / scoped-vs-unscoped oracles over multi-lifetime histories",
             "Context ids of many shapes are stored in three process lifetimes (clean restarts) under shard counts 1..16; the shard tag in "
             "event ids must be constant per context within and across lifetimes, WAL lines must sit under the tagged shard's directory, "
-            "QUERY/REPLAY FOR ctx must return exactly the context's events and the unscoped QUERY exactly the union.",
+            "QUERY/REPLAY FOR ctx must return exactly the context's events, the unscoped QUERY exactly the union, and the unscoped "
+            "ORDER BY k DESC LIMIT 1..3 the top-n of the union (newest events in memory on some shards, older ones in segments of others).",
             "shard tag decoded from event_id bits 12..21; crash restarts are excluded here (loss after crash is C01's subject)",
             "DESIGN.md §4 C12"),
     "C09": ("exploration",
@@ -53,7 +54,7 @@ CHECKS = {
             "runtime monitoring: relational oracle (python sort/slice of the engine's own unordered selection) per storage tier",
             "ORDER BY f [DESC] LIMIT n OFFSET m queries over int/float/string/datetime/nullable/core-timestamp keys with duplicate and "
             "missing values, n and m around 0, 1, |R| and beyond, WHERE/FOR scopes, data split over 1-5 shards and memory / L0 / compacted / "
-            "restart layouts; checks monotonicity, membership, multiplicity, slice size and the key multiset of positions m..m+n; "
+            "restart layouts, plus deep pages (OFFSET >= 10 x LIMIT); checks monotonicity, membership, multiplicity, slice size and the key multiset of positions m..m+n; "
             "OFFSET without LIMIT must be rejected.",
             "ties arbitrary, nulls first or last accepted; scripted clock (hook) makes core timestamps distinct",
             "DESIGN.md §4 C10"),
@@ -73,7 +74,9 @@ CHECKS = {
             "up to 6 rounds run through the repo's CompactionWorker/Handover with the shard's own live list and flush lock; rows (k, ctx, payload, "
             "event id), typed REPLAY membership and COUNT/TOTAL/MIN/MAX are compared before/after each round, COUNT against distinct rows, and "
             "index/live list against the executed plans; every cw/mc/zw/idx/ho/rc step point x first/last hit is crashed, restarted and compared "
-            "with the pre-round observation, followed by a further round.",
+            "with the pre-round observation, followed by a further round; failure clause: every batch is parked after creating its output "
+            "directory, a directory is planted where one output file of one event type must be created, and the observation must be unchanged "
+            "after the failed run, after removing the obstacle + another round, and after restart.",
             "deterministic rounds bypass only the timer and pressure gates of compactor/background.rs; aggregates are not compared across crash "
             "restarts (C01's WAL double count would mask)",
             "DESIGN.md §4 C05"),
@@ -82,14 +85,16 @@ CHECKS = {
             "The C01 templates are replayed with an @fs observation after every command, hook-side manifests at every flush/compaction step "
             "point, and after every crash (each segment-touching step point x first/last hit, SIGKILL) + restart; the monitor asserts that "
             "files of a published segment never change while it is published, that a directory left unpublished by an earlier lifetime "
-            "is never published later, and that everything named by the live list or index is complete.",
+            "is never published later, and that everything named by the live list or index is complete; multi-type compaction histories add "
+            "step-point snapshots that carry the decoded on-disk index (read before and after the directory walk), so a segment that is "
+            "named at one step point and changed at a later one inside the same command is seen.",
             "completeness is file presence/non-emptiness of .zones/.idx/.icx and core column files per uid (payload columns of optional "
             "fields may legitimately be absent); instants inside one syscall are not distinguishable for a process crash",
             "DESIGN.md §4 C11"),
     "C03": ("exploration",
             "runtime monitoring: pause hooks at every flush step + read-path parking + TCP stress with interval oracle",
             "Stepped: the auto-flush is parked at each of 23 named points of its pipeline and QUERY / COUNT / REPLAY are issued while it is "
-            "parked, with further rotations queued behind it, and after release. Crossing: a read is parked at each read-path point after its "
+            "parked, with further rotations queued behind it (more than max_inflight_passives in {1,2,3,8} of them), and after release. Crossing: a read is parked at each read-path point after its "
             "plan / passive snapshot was taken, the flush (parked at F or not yet started) runs to completion, the read resumes. Stress: real "
             "TCP connections, concurrent writers/readers, seeded delays, write bursts and quiet periods; every read is judged against the "
             "events acknowledged before its call / issued before its return. @state is recorded with every read (distinct visibility states "
@@ -118,7 +123,9 @@ CHECKS = {
             "Random strings, grammar-derived commands of every family and 14 mutators (number widening, nesting to depth 20000, unterminated "
             "strings/JSON, non-ASCII, keywords as identifiers, ...) are parsed by parse_command in sharded child processes; generated expression "
             "trees printed with minimal parentheses, random keyword case and redundant parentheses must parse back to the same tree and two "
-            "spellings of one command to equal Commands; every parsed command is dispatched against a live engine and must be answered.",
+            "spellings of one command to equal Commands; one command printed with plain and with exotic content (case-mapping characters, "
+            "keywords, separators, brackets) inside its quoted literals must be accepted alike and parse to the same command up to the "
+            "literal; every parsed command is dispatched against a live engine and must be answered.",
             "termination judged as bounded progress (120 s per batch, 60 s per isolated input, 3 confirmations); overflow checks are not enabled "
             "in the engine profile (flow/metrics.rs statistics underflow by design)",
             "DESIGN.md §4 C17"),
@@ -191,7 +198,8 @@ CHECKS = {
             "and permission management) under inline signature, connection AUTH + signature and session token, with valid, wrong-key, truncated, "
             "other-user, other-command, expired-token and revoked-key credentials and payloads carrying ' TOKEN ', ':' and other users' valid "
             "signatures. A reply with rows of an unreadable type, an accepted STORE without write permission, a successful admin command by a "
-            "non-admin, or anything but an authentication failure under invalid credentials is a violation.",
+            "non-admin, or anything but an authentication failure under invalid credentials is a violation. Changes come in same-second bursts "
+            "and the server is restarted (clean / kill) between steps: the whole matrix is probed again against the reloaded auth log.",
             "safety direction only (executed => authenticated and authorised); a permission entry with both flags revoked under a role is left "
             "unasserted because the docs describe it both ways; Compare/PLOT and BATCH are not driven; token expiry is the only wall-clock element",
             "DESIGN.md §4 C13"),
